@@ -1,0 +1,43 @@
+//! verif-hooks only (C11): the raw answer of one of the two prefix stores of
+//! a `Rib` (the rotonda-store dependency), bypassing `Rib::match_prefix`'s
+//! unicast/multicast selection. Used to tell what the dependency answered
+//! from what rotonda made of it.
+use inetnum::addr::Prefix;
+use rotonda_store::{epoch, MatchOptions, MatchType};
+
+impl super::Rib {
+    /// The prefixes one store reports as less and as more specifics of
+    /// `prefix` (`match_prefix` with both includes, `include_withdrawn`).
+    pub fn verif_store_specifics(
+        &self,
+        prefix: &Prefix,
+        multicast: bool,
+    ) -> Option<(Vec<Prefix>, Vec<Prefix>)> {
+        let store = if multicast {
+            (*self.multicast).as_ref()?
+        } else {
+            (*self.unicast).as_ref()?
+        };
+        let guard = &epoch::pin();
+        let res = store.match_prefix(
+            prefix,
+            &MatchOptions {
+                match_type: MatchType::ExactMatch,
+                include_less_specifics: true,
+                include_more_specifics: true,
+                include_withdrawn: true,
+                mui: None,
+            },
+            guard,
+        );
+        let less = res
+            .less_specifics
+            .map(|s| s.iter().map(|r| r.prefix).collect::<Vec<_>>())
+            .unwrap_or_default();
+        let more = res
+            .more_specifics
+            .map(|s| s.iter().map(|r| r.prefix).collect::<Vec<_>>())
+            .unwrap_or_default();
+        Some((less, more))
+    }
+}
